@@ -240,8 +240,57 @@ func orderInsensitive(info *types.Info, fd *ast.FuncDecl, rs *ast.RangeStmt) (bo
 		}
 		return false
 	}
+	// arg-max with a total tie-break on the iteration KEY:
+	//   if v > m || (v == m && k < best) { m = v; best = k }      (also with < / > mirrored)
+	// selects the lexicographic optimum of (v, k); keys are distinct, so the result does not depend on the order.
+	argmaxKey := func(s ast.Stmt) bool {
+		ifs, ok := s.(*ast.IfStmt)
+		if !ok || ifs.Else != nil || len(ifs.Body.List) != 2 || keyObj == nil {
+			return false
+		}
+		or, ok := ifs.Cond.(*ast.BinaryExpr)
+		if !ok || or.Op != token.LOR {
+			return false
+		}
+		first, ok := or.X.(*ast.BinaryExpr)
+		if !ok || (first.Op != token.GTR && first.Op != token.LSS) {
+			return false
+		}
+		par, ok := or.Y.(*ast.ParenExpr)
+		if !ok {
+			return false
+		}
+		and, ok := par.X.(*ast.BinaryExpr)
+		if !ok || and.Op != token.LAND {
+			return false
+		}
+		eq, ok := and.X.(*ast.BinaryExpr)
+		if !ok || eq.Op != token.EQL {
+			return false
+		}
+		tie, ok := and.Y.(*ast.BinaryExpr)
+		if !ok || (tie.Op != token.LSS && tie.Op != token.GTR) {
+			return false
+		}
+		v, m := types.ExprString(first.X), types.ExprString(first.Y)
+		if types.ExprString(eq.X) != v || types.ExprString(eq.Y) != m {
+			return false
+		}
+		kid, ok := tie.X.(*ast.Ident)
+		if !ok || info.Uses[kid] != keyObj {
+			return false
+		}
+		best := types.ExprString(tie.Y)
+		a1, ok1 := ifs.Body.List[0].(*ast.AssignStmt)
+		a2, ok2 := ifs.Body.List[1].(*ast.AssignStmt)
+		if !ok1 || !ok2 || a1.Tok != token.ASSIGN || a2.Tok != token.ASSIGN || len(a1.Lhs) != 1 || len(a2.Lhs) != 1 {
+			return false
+		}
+		return types.ExprString(a1.Lhs[0]) == m && types.ExprString(a1.Rhs[0]) == v &&
+			types.ExprString(a2.Lhs[0]) == best && types.ExprString(a2.Rhs[0]) == kid.Name
+	}
 	for _, s := range rs.Body.List {
-		if relax(s) {
+		if relax(s) || argmaxKey(s) {
 			continue
 		}
 		if ok, why := check(s); !ok {
